@@ -88,10 +88,11 @@ def set_bad_file_permissions(context):
                     sev_level = bandit.MEDIUM
 
                 filename = context.get_call_arg_at_position(0)
-                if not isinstance(filename, (str, bytes, int, float)):
+                if not isinstance(filename, (str, bytes)):
                     # not a literal, or a display: a set or dict - also one
                     # nested in a list or tuple - has no stable text (hash
-                    # order, node addresses): do not quote it
+                    # order, node addresses), and a number may be too long
+                    # to be formatted at all: do not quote it
                     filename = "NOT PARSED"
                 return bandit.Issue(
                     severity=sev_level,
